@@ -1180,3 +1180,208 @@ def replay_inputs(ctx, path, rejudge):
     ctx.nontrivial.update(range(max(2, len(items))))
     ctx.rule = "replay of recorded failing inputs"
     return r, bad
+
+
+# --------------------------------------------------------------------------
+# 'relations' stream: relations BETWEEN arguments and BETWEEN calls (model side unchanged: every
+# result is judged by the exact oracle - the content of each call is an ordinary case)
+# --------------------------------------------------------------------------
+
+REL_SCENARIOS = ("shift-in-place", "shift-in-place", "shift-in-place", "same-dimension-twice", "fact-is-weights",
+                 "fact-is-dimension", "shared-fact", "shared-fact", "repeat", "calculate-order")
+
+
+def as_kind(c, kind):
+    if kind == "count":
+        return dict(c, kind="count", K=None, fact=None, N_arg=None)
+    return dict(c, kind=kind)
+
+
+def relations_case(rng):
+    c = gen_case(rng, kind="mean", nd=rng.choice([1, 2, 2, 3]), N=rng.choice([3, 4, 5, 6, 7, 8]))
+    c["shape_mode"] = "explicit"
+    c["xdtype"] = "int64"
+    c["N_arg"] = None
+    sc = rng.choice(REL_SCENARIOS)
+    d = rng.randrange(len(c["exts"]))
+    rel = {"scenario": sc, "d": d, "v": rng.randrange(c["exts"][d]), "kinds": [rng.choice(KINDS) for _ in range(5)],
+           "order": rng.sample(range(4), 4), "cubes": [rng.choice("cx") for _ in range(5)]}
+    if sc == "shared-fact":
+        rel["kinds"][0] = "mean"            # an unweighted index-cube mean first (it must not touch the caller's NaN markers)
+        rel["cubes"][0] = "c"
+        if rng.random() < 0.7:
+            c["fform"], c["fdtype"] = "nan", "f8"
+            c["fhidden"] = "nan"
+    if sc in ("fact-is-weights", "fact-is-dimension", "same-dimension-twice"):
+        c["form_seed"] = None               # the shared objects are built here, in the ordinary form
+    c["rel"] = rel
+    return c
+
+
+def _res_of(out, shape, c_k, fmt):
+    ncells = 1
+    for e in shape:
+        ncells *= e
+    cells, odd = abstract_output(out, fmt, ncells, c_k["K"] or 1)
+    return {"cells": cells, "shape": tuple(shape), "odd": odd}
+
+
+def _agg(cube, c_k, fmt, fact, weights):
+    kw = {"weights": weights, "ignore_missing": c_k["ign"], "return_missing_as": fmt_arg(fmt)}
+    with warnings.catch_warnings():
+        warnings.simplefilter("ignore")
+        with numpy.errstate(all="ignore"):
+            try:
+                out = getattr(cube, c_k["kind"])(*([] if c_k["kind"] == "count" else [fact]), **kw)
+            except Exception as e:
+                return {"exc": type(e).__name__ + ": " + str(e)[:200]}
+    return _res_of(out, tuple(int(e) for e in cube.interacting_shape), c_k, fmt)
+
+
+def _same_content(a, b):
+    if isinstance(a, tuple):
+        return isinstance(b, tuple) and len(a) == len(b) and all(_same_content(x, y) for x, y in zip(a, b))
+    if a is None or b is None:
+        return a is b
+    try:
+        return numpy.array_equal(numpy.asarray(a), numpy.asarray(b), equal_nan=True)
+    except TypeError:
+        return numpy.array_equal(numpy.asarray(a), numpy.asarray(b))
+
+
+def _copy_arg(a):
+    import copy
+    return tuple(_copy_arg(x) for x in a) if isinstance(a, tuple) else copy.deepcopy(a)
+
+
+def run_relations(S, c, fmt):
+    """Play the scenario c['rel'] on real objects; every aggregate result is judged by the oracle."""
+    catii, rel = S.catii, c["rel"]
+    sc = rel["scenario"]
+    S.count("relation:" + sc)
+
+    def check(c_k, which, res, step, other=None):
+        S.calls += 1
+        S.oracle_only += 1
+        bad = judge(c_k, which, fmt, res)
+        if not bad and other is not None and "cells" in other and "cells" in res:
+            bad = compare(c_k, res["cells"], other["cells"], exact=not c_k.get("float_stream"))
+            bad = bad and "differs from a fresh cube: " + bad
+        if bad:
+            S.fail(c_k, fmt, which, "relations/%s step %s: %s" % (sc, step, bad), {"tag": "relations", "step": step})
+        return not bad
+
+    def cubes_for(cc, dims=None):
+        dims = build_dims(catii, cc) if dims is None else dims
+        xarrs = [numpy.array(a, dtype=numpy.int64) for a in cc["arrs"]]
+        with warnings.catch_warnings():
+            warnings.simplefilter("ignore")
+            return dims, {"c": catii.ccube(dims, interacting_shape=tuple(cc["exts"])), "x": catii.xcube(xarrs, interacting_shape=tuple(cc["exts"]))}
+
+    fact, weights = build_fact(c), build_weights(c)          # built ONCE: every call of the scenario shares these objects
+    del FORM_TAGS[:]
+    pristine = (_copy_arg(fact), _copy_arg(weights))
+    kinds, which = rel["kinds"], rel["cubes"]
+
+    if sc == "shift-in-place":
+        # ONE index cube kept across: aggregate -> shift one of ITS dimensions in place -> aggregate -> shift_common() -> aggregate
+        dims, cu = cubes_for(c)
+        cube, d = cu["c"], rel["d"]
+        for step, action in enumerate([None, ("shift_common", rel["v"]), ("shift_common", None)]):
+            if action is not None:
+                dims[d].shift_common(action[1])
+            c_k = as_kind(c, kinds[step])
+            if is_shortcut(c_k, fmt):
+                c_k = as_kind(c, "sum")
+            res = _agg(cube, c_k, fmt, fact, weights)
+            with warnings.catch_warnings():
+                warnings.simplefilter("ignore")
+                fresh = _agg(catii.ccube(dims, interacting_shape=tuple(c["exts"])), c_k, fmt, fact, weights)
+            S.count("relation-shift:" + ("none" if action is None else "auto" if action[1] is None else
+                                         "same" if rel["v"] == c["commons"][d] else "in-data" if rel["v"] in c["arrs"][d] else "absent"))
+            check(c_k, "c", res, "%d (%s after %s)" % (step, c_k["kind"], "nothing" if action is None else "dims[%d].%s(%s)" % (d, action[0], "" if action[1] is None else action[1])), fresh)
+    elif sc == "same-dimension-twice":
+        d = rel["d"]
+        cc = dict(c, arrs=[c["arrs"][d], c["arrs"][d]], commons=[c["commons"][d]] * 2, exts=[c["exts"][d]] * 2)
+        d0 = build_index(catii, cc["arrs"][0], cc["commons"][0], cc["N"])
+        xa = numpy.array(cc["arrs"][0], dtype=numpy.int64)
+        with warnings.catch_warnings():
+            warnings.simplefilter("ignore")
+            cu = {"c": catii.ccube([d0, d0], interacting_shape=tuple(cc["exts"])), "x": catii.xcube([xa, xa], interacting_shape=tuple(cc["exts"]))}
+        for step in range(3):
+            c_k = as_kind(cc, kinds[step])
+            if is_shortcut(c_k, fmt):
+                continue
+            check(c_k, which[step], _agg(cu[which[step]], c_k, fmt, fact, weights), "%d (%s, one object as both dimensions)" % (step, c_k["kind"]))
+    elif sc == "fact-is-weights":
+        cc = dict(c, K=None, wkind="arr", w=[abs(row[0]) for row in c["fact"]], wvalid=[row[0] for row in c["fvalid"]], whidden="nan",
+                  fform="nan", fdtype="f8", fhidden="nan", form_seed=None)
+        cc["fact"] = [[x] for x in cc["w"]]
+        cc["fvalid"] = [[ok] for ok in cc["wvalid"]]
+        arr = build_weights(cc)
+        pristine = (_copy_arg(arr), _copy_arg(arr))
+        fact = weights = arr
+        dims, cu = cubes_for(cc)
+        for step in range(3):
+            c_k = as_kind(cc, kinds[step] if kinds[step] != "count" else "sum")
+            if is_shortcut(c_k, fmt):
+                continue
+            check(c_k, which[step], _agg(cu[which[step]], c_k, fmt, arr, arr), "%d (%s, fact and weights are one array)" % (step, c_k["kind"]))
+    elif sc == "fact-is-dimension":
+        d = rel["d"]
+        cc = dict(c, K=None, fdtype="i8", fform="pair", fhidden="same", form_seed=None,
+                  fact=[[Fr(v)] for v in c["arrs"][d]], fvalid=[[True]] * c["N"])
+        dims = build_dims(catii, cc)
+        xarrs = [numpy.array(a, dtype=numpy.int64) for a in cc["arrs"]]
+        fact = (xarrs[d], numpy.ones(cc["N"], dtype=bool))
+        pristine = (_copy_arg(fact), _copy_arg(weights))
+        with warnings.catch_warnings():
+            warnings.simplefilter("ignore")
+            cu = {"c": catii.ccube(dims, interacting_shape=tuple(cc["exts"])), "x": catii.xcube(xarrs, interacting_shape=tuple(cc["exts"]))}
+        for step in range(3):
+            c_k = as_kind(cc, kinds[step] if kinds[step] != "count" else "mean")
+            if is_shortcut(c_k, fmt):
+                continue
+            check(c_k, which[step], _agg(cu[which[step]], c_k, fmt, fact, weights), "%d (%s, the fact is the array of dimension %d)" % (step, c_k["kind"], d))
+    elif sc == "shared-fact":
+        dims, cu = cubes_for(c)
+        for step in range(5):
+            c_k = as_kind(c, kinds[step])
+            w = weights
+            if step == 0:
+                c_k, w = dict(c_k, wkind="none"), None          # the unweighted mean goes first
+            if is_shortcut(c_k, fmt):
+                continue
+            check(c_k, which[step], _agg(cu[which[step]], c_k, fmt, fact, w), "%d (%s on %scube, fact object shared by all steps)" % (step, c_k["kind"], which[step]))
+    elif sc == "repeat":
+        dims, cu = cubes_for(c)
+        c_k = as_kind(c, kinds[0])
+        if is_shortcut(c_k, fmt):
+            c_k = as_kind(c, "sum")
+        for w_ in "cx":
+            first = _agg(cu[w_], c_k, fmt, fact, weights)
+            check(c_k, w_, first, "0 (%s)" % c_k["kind"])
+            check(c_k, w_, _agg(cu[w_], c_k, fmt, fact, weights), "1 (the same call repeated on the same cube)", first)
+    elif sc == "calculate-order":
+        dims, cu = cubes_for(c)
+        import sys
+        mods = {"c": sys.modules["catii"].ccubes.ffuncs, "x": sys.modules["catii"].xcubes.xfuncs}
+        rma = fmt_arg(fmt)
+        for w_ in "cx":
+            m, p = mods[w_], {"c": "ffunc_", "x": "xfunc_"}[w_]
+            todo = [k for k in [KINDS[i] for i in rel["order"]] if not is_shortcut(as_kind(c, k), fmt)]
+            funcs = [getattr(m, p + "count")(weights, None, c["ign"], rma) if k == "count" else getattr(m, p + k)(fact, weights, c["ign"], rma) for k in todo]
+            try:
+                with warnings.catch_warnings():
+                    warnings.simplefilter("ignore")
+                    with numpy.errstate(all="ignore"):
+                        outs = cu[w_].calculate(funcs)
+            except Exception as e:
+                S.fail(c, fmt, w_, "relations/calculate-order: EXC %s: %s" % (type(e).__name__, str(e)[:200]), {"tag": "relations"})
+                continue
+            for k, out in zip(todo, outs):
+                c_k = as_kind(c, k)
+                check(c_k, w_, _res_of(out, tuple(c["exts"]), c_k, fmt), "calculate(%s): %s" % (todo, k))
+    # no call may have changed the caller's arrays (the next call sees them)
+    if not (_same_content(fact, pristine[0]) and _same_content(weights, pristine[1])):
+        S.fail(c, fmt, "c", "relations/%s: an aggregate modified the caller's fact / weights array in place" % sc, {"tag": "relations"})
